@@ -39,6 +39,7 @@ def seeds(seed=0):
     out.append(("sd-unreferenced-option", rc.enc_someip(0xFFFF, 0x8100, 0, 9, 1, 2, 0, rc.enc_sd(0xC0, raw, [v4, lb]))))
     out.append(("sd-unicast-flag-clear", _sd(10, [("offer", s, 1, 1, 3, 0, (v4,), ())], unicast=False)))
     out.append(("two-messages", rc.enc_someip(s, 2, 3, 4, 1, 0x01, 0, b"ab") + _sd(11, [("find", s, 1, 1, 3, 0, (), ())])))
+    out.append(("sd-stop-subscribe", _sd(12, [("subscribe", s, 1, 1, 0, 5, (v4,), ())])))
     return out
 
 
